@@ -175,9 +175,11 @@ def family_once(rep: Any, prop: str, recs: List[Dict[str, Any]], eligible: List[
             info["runs"] += 1
             rep.count(1)
             hits = uni.fail_once_hits.get(key_, 0)
+            # several STEPS may calculate a feature of that name (typed requested copy next to the untyped dependency)
+            allowed = sum(1 for s_ in plan["steps"] if s_["kind"] == "FG" and s_.get("group") == key_[0] and key_[1] in (s_.get("names") or [])) or 1
             rkey = f"once:{mode.name}:{exc}:{json.dumps(recs[i]['spec'], sort_keys=True)}:{st['sid']}"
             replay = {"kind": "once", "spec": recs[i]["spec"], "fail": [st["group"], list(st["names"])], "exc": exc, "mode": mode.name}
-            if hits > 1:
+            if hits > allowed:
                 rep.finding(rkey, f"{mode.name}: the calculation of {st['group']}.{key_[1]} raised {exc} the first time it was executed and was "
                                   f"executed {hits} times in one run (run {o['status']}): a feature is handed to its calculation once", replay)
                 found = True
